@@ -223,7 +223,7 @@ class Eval:
                         return st[("L", e["name"])]
                     return b[1]
                 if ("L", e["name"]) in st:
-                    return st[("L", e["name"])]
+                    return self._masked_by_range(st[("L", e["name"])], i)
                 if dk == "param" and it:
                     return self._input(e["name"], it, i)
                 return UNK
@@ -324,6 +324,22 @@ class Eval:
                     return b_shl(a, vb.bit_length() - 1)
             return UNK
         return UNK
+
+    def _masked_by_range(self, bits_, node):
+        """The stored bits of a local with those the interval engine proves zero at this read replaced by 0 (a range
+        guard on a local copy: `pil = pid->pil; if (pil >> 20) return FALSE; ... pil >> 14`)."""
+        if self.an is None or node is None:
+            return bits_
+        st = self.an.state_before_expr(node) if hasattr(self.an, "state_before_expr") else None
+        if st is None:
+            return bits_
+        iv = self.an.eval(st, node)
+        if iv[0] is None or iv[0] < 0 or iv[1] is None:
+            return bits_
+        hi = iv[1]
+        if all(not (hi < (1 << j)) or b == 0 for j, b in enumerate(bits_)):
+            return bits_
+        return tuple(0 if hi < (1 << j) else b for j, b in enumerate(bits_))
 
     def _input(self, path, it, node):
         """Bits of an input, with the bits the interval engine proves zero
